@@ -35,12 +35,13 @@ class AssemblyManager(object):
         for elem in self.elements:
             self._deref_citations(elem.record)
 
-        assembly = self._generate_assembly(modmap)
-
-        self._annotate_assembly(assembly)
-        self._ref_citations(assembly)
-        for elem in self.elements:
-            self._ref_citations(elem.record)
+        try:
+            assembly = self._generate_assembly(modmap)
+            self._annotate_assembly(assembly)
+            self._ref_citations(assembly)
+        finally:
+            for elem in self.elements:
+                self._ref_citations(elem.record)
 
         return assembly
 
